@@ -497,45 +497,60 @@ def unsat(t, domain=None, budget=1 << 14):
                 new = True
         if not new:
             break
-    # residual: split on atoms
-    atoms = []
-
-    def collect(x):
-        at = _atom(x)
-        if at is not None:
-            if at[0] not in atoms and at[0] not in asg:
-                atoms.append(at[0])
-            return
-        if isinstance(x, Op) and x.op in ("and", "or", "not"):
-            for a in x.args:
-                collect(a)
-        elif isinstance(x, Ite):
-            collect(x.c), collect(x.a), collect(x.b)
-    collect(cur)
-    if len(atoms) > 22:
-        raise AnalysisError("path condition too large to decide (%d atoms)" % len(atoms))
+    # residual: DPLL-style splitting with unit propagation (budgeted)
     n = [0]
 
-    def search(term, a, rest):
+    def first_atom(x):
+        at = _atom(x)
+        if at is not None:
+            return at[0]
+        if isinstance(x, Op) and x.op in ("and", "or", "not"):
+            for a in x.args:
+                r = first_atom(a)
+                if r is not None:
+                    return r
+        elif isinstance(x, Ite):
+            for a in (x.c, x.a, x.b):
+                r = first_atom(a)
+                if r is not None:
+                    return r
+        return None
+
+    def propagate(term, a):
+        for _ in range(400):
+            term = _peval(term, a)
+            if term == FALSE or term == TRUE:
+                return term
+            new = False
+            for c in (term.args if isinstance(term, Op) and term.op == "and" else [term]):
+                at = _atom(c)
+                if at is not None and at[0] not in a:
+                    a[at[0]] = at[1]
+                    new = True
+            if not new:
+                return term
+        return term
+
+    def search(term, a):
         n[0] += 1
-        if n[0] > (1 << 22):
-            raise AnalysisError("path condition enumeration budget exceeded")
-        term = _peval(term, a)
+        if n[0] > budget * 8:
+            raise AnalysisError("path condition too hard to decide (search budget exceeded)")
+        term = propagate(term, a)
         if term == FALSE:
             return None
         if term == TRUE:
             return a
-        # pick first unassigned atom
-        for i, x in enumerate(rest):
-            for v in (True, False):
-                a2 = dict(a)
-                a2[x] = v
-                r = search(term, a2, rest[:i] + rest[i + 1:])
-                if r is not None:
-                    return r
-            return None
-        return a
-    w = search(cur, dict(asg), atoms)
+        x = first_atom(term)
+        if x is None:
+            return a
+        for v in (True, False):
+            a2 = dict(a)
+            a2[x] = v
+            r = search(term, a2)
+            if r is not None:
+                return r
+        return None
+    w = search(cur, dict(asg))
     return (w is None), w
 
 
